@@ -319,36 +319,36 @@ def match_known(prop, check, detail):
 # ------------------------------------------------------------------------------------------- properties
 ECON_MC = dict(module="MC_Hub.tla", cfg="MC_Econ.cfg", timeout=900,
                quick={"MaxLen": "8"}, thorough={"MaxLen": "12", "MaxBlocks": "3"})
-ECON_SIM = dict(module="MC_Hub.tla", cfg="MC_EconSim.cfg", family="econ", num=(40, 600), depth=200, timeout=3000,
+ECON_SIM = dict(module="MC_Hub.tla", cfg="MC_EconSim.cfg", family="econ", num=(40, 200), depth=200, timeout=3000,
                 quick={"MaxLen": "40"}, thorough={"MaxLen": "70"})
-ECON2_SIM = dict(module="MC_Hub.tla", cfg="MC_Econ2Sim.cfg", family="econ", num=(40, 600), depth=200, timeout=3000,
+ECON2_SIM = dict(module="MC_Hub.tla", cfg="MC_Econ2Sim.cfg", family="econ", num=(40, 200), depth=200, timeout=3000,
                  quick={"MaxLen": "60"}, thorough={"MaxLen": "80"})
 # the same behaviours on a genesis with a holders list (commission discount tiers: e5 holds exactly 2, e6 just below 32, e8 exactly 1 HUB)
 ECONH_SIM = dict(module="MC_Hub.tla", cfg="MC_EconHoldSim.cfg", family="econ", num=(20, 300), depth=200, timeout=3000,
                  quick={"MaxLen": "40"}, thorough={"MaxLen": "70"}, script_cfg="cfg_holders.json")
-FEES_SIM = dict(module="MC_Hub.tla", cfg="MC_FeesSim.cfg", family="fees", num=(60, 800), depth=240, timeout=3000,
+FEES_SIM = dict(module="MC_Hub.tla", cfg="MC_FeesSim.cfg", family="fees", num=(60, 250), depth=240, timeout=3000,
                 quick={"MaxLen": "70"}, thorough={"MaxLen": "90"}, script_cfg="cfg_keys_prices.json")
 # governance: passed cold-storage proposals among the econ actions
 GOV_MC = dict(module="MC_Hub.tla", cfg="MC_Gov.cfg", timeout=900, quick={"MaxLen": "7"}, thorough={"MaxLen": "10", "MaxBlocks": "3"})
 GOV_SIM = dict(module="MC_Hub.tla", cfg="MC_GovSim.cfg", family="gov", num=(20, 300), depth=200, timeout=3000,
                quick={"MaxLen": "50"}, thorough={"MaxLen": "70"})
 ATTEST_MC = dict(module="MC_Hub.tla", cfg="MC_Attest.cfg", timeout=1500, quick={"MaxLen": "6"}, thorough={"MaxLen": "9"})
-ATTEST_SIM = dict(module="MC_Hub.tla", cfg="MC_AttestSim.cfg", family="attest", num=(40, 600), depth=200, timeout=3000,
+ATTEST_SIM = dict(module="MC_Hub.tla", cfg="MC_AttestSim.cfg", family="attest", num=(40, 200), depth=200, timeout=3000,
                   quick={"MaxLen": "40"}, thorough={"MaxLen": "60"})
 
 VALSET_MC = dict(module="MC_Hub.tla", cfg="MC_Valset.cfg", timeout=1500, quick={"MaxLen": "5"}, thorough={"MaxLen": "7"})
-VALSET_SIM = dict(module="MC_Hub.tla", cfg="MC_ValsetSim.cfg", family="valset", num=(40, 600), depth=200, timeout=3000,
+VALSET_SIM = dict(module="MC_Hub.tla", cfg="MC_ValsetSim.cfg", family="valset", num=(40, 200), depth=200, timeout=3000,
                   quick={"MaxLen": "40"}, thorough={"MaxLen": "60"})
 
 REGISTRY_ENUM = dict(module="MC_Hub.tla", cfg="MC_Registry.cfg", family="valset", timeout=1500, sample=(2500, 0),
                      prefix=[{"k": "Begin", "dt": 1}], quick={}, thorough={})
 
 ORACLE_MC = dict(module="MC_Oracle.tla", cfg="MC_Oracle.cfg", timeout=1500, quick={"MaxLen": "6"}, thorough={"MaxLen": "8"})
-ORACLE_SIM = dict(module="MC_Oracle.tla", cfg="MC_OracleSim.cfg", family="oracle", num=(60, 800), depth=240, timeout=3000,
+ORACLE_SIM = dict(module="MC_Oracle.tla", cfg="MC_OracleSim.cfg", family="oracle", num=(60, 250), depth=240, timeout=3000,
                   quick={"MaxLen": "60"}, thorough={"MaxLen": "80"}, script_cfg="cfg_oracle.json")
 
 EVM_MC = dict(module="MC_Evm.tla", cfg="MC_Evm.cfg", timeout=1500, quick={"MaxLen": "5"}, thorough={"MaxLen": "6"})
-EVM_SIM = dict(module="MC_Evm.tla", cfg="MC_EvmSim.cfg", family="evm", num=(40, 500), depth=300, timeout=3000,
+EVM_SIM = dict(module="MC_Evm.tla", cfg="MC_EvmSim.cfg", family="evm", num=(40, 160), depth=300, timeout=3000,
                quick={"MaxLen": "90"}, thorough={"MaxLen": "120"}, script_cfg="cfg_evm.json", script_extra={"evm": "ethereum"})
 
 MINTER_MC = dict(module="MC_Minter.tla", cfg="MC_Minter.cfg", timeout=2400, quick={"MaxLen": "5"}, thorough={"MaxLen": "6"})
